@@ -107,6 +107,59 @@ theorem readByDimIndex_eq (codec : Option Codec) (o : SegObj) (ord : List Nat) (
   · have hdn : ¬ (frameDims ord o.keys).Nodup := fun h => hkn ((frameDims_nodup_iff ord o.keys hk).mp h)
     simp only [hkn, hdn, not_false_eq_true, ↓reduceIte]
 
+/-! ## reading by the source numbers the frames record -/
+
+theorem readFrame_relabel (codec : Option Codec) (σ : Nat → Nat) (o : SegObj) (i : Nat) :
+    readFrame codec (relabelSources σ o) i = readFrame codec o i := by
+  unfold readFrame relabelSources
+  simp only [List.length_map]
+
+theorem readBySource_relabel (codec : Option Codec) (σ : Nat → Nat) (o : SegObj) (request : List Nat)
+    (hinj : ∀ k ∈ o.keys, ∀ p, (p ∈ request ∨ ∃ k' ∈ o.keys, k'.2 = p) → σ k.2 = σ p → k.2 = p) :
+    readBySource codec (relabelSources σ o) (request.map σ) .assertEmpty = readBySource codec o request .assertEmpty := by
+  have hfinj : ∀ a ∈ o.keys, ∀ b : Option Nat × Nat, (b.2 ∈ request ∨ ∃ k' ∈ o.keys, k'.2 = b.2) →
+      ((fun k : Option Nat × Nat => (k.1, σ k.2)) a = (fun k : Option Nat × Nat => (k.1, σ k.2)) b) → a = b := by
+    intro a ha b hb hab
+    simp only [Prod.mk.injEq] at hab
+    have := hinj a ha b.2 hb hab.2
+    exact Prod.ext hab.1 this
+  have hnd : (relabelSources σ o).keys.Nodup ↔ o.keys.Nodup := by
+    unfold relabelSources List.Nodup
+    simp only
+    rw [List.pairwise_map]
+    constructor
+    · intro h; exact h.imp (fun {a b} hne hab => hne (by rw [hab]))
+    · intro h
+      exact h.imp_of_mem (fun {a b} ha hb hne hc => hne (hfinj a ha b (Or.inr ⟨b, hb, rfl⟩) hc))
+  unfold readBySource
+  by_cases hk : o.keys.Nodup
+  · simp only [hk, hnd.mpr hk, not_true_eq_false, ↓reduceIte, missingRefusal]
+    rw [mapE_map]
+    apply mapE_congr
+    intro p hp
+    have hkey : ∀ sg : Option Nat, readKey codec (relabelSources σ o) (sg, σ p) = readKey codec o (sg, p) := by
+      intro sg
+      unfold readKey
+      have : (relabelSources σ o).keys = o.keys.map fun k => (k.1, σ k.2) := rfl
+      rw [this]
+      have e : ((sg, σ p) : Option Nat × Nat) = (fun k : Option Nat × Nat => (k.1, σ k.2)) (sg, p) := rfl
+      rw [e, findKey_map_inj (fun k : Option Nat × Nat => (k.1, σ k.2)) o.keys (sg, p)
+        (fun a ha hc => hfinj a ha (sg, p) (Or.inl hp) hc)]
+      cases findKey o.keys (sg, p) with
+      | none => rfl
+      | some i => exact readFrame_relabel codec σ o i
+    unfold readRow
+    have ht : (relabelSources σ o).t = o.t := rfl
+    have hsegs : (relabelSources σ o).segs = o.segs := rfl
+    rw [ht, hsegs]
+    by_cases hl : o.t = .labelmap
+    · simp only [hl, ↓reduceIte, hkey]
+    · simp only [hl, ↓reduceIte]
+      apply mapE_congr
+      intro s _
+      exact hkey (some s)
+  · simp only [hk, mt hnd.mp hk, not_false_eq_true, ↓reduceIte]
+
 /-! ## the frames are stored in dimension order -/
 
 theorem lexLt_cons_lt (a b : Nat) (as bs : List Nat) (h : a < b) : lexLt (a :: as) (b :: bs) = true := by
